@@ -25,6 +25,9 @@ MAX_REVERIFY = 6
 GROUP_IGNORE = ('ws:', 'paren:', 'leaf:', 'lit:', 'route:', 'spell:')
 
 
+_DUMP = os.environ.get('XLMC_DUMP')
+
+
 class HarnessError(Exception):
     pass
 
@@ -62,7 +65,13 @@ class Ctx:
         self.keys_seen = 0
 
     # -- recording -------------------------------------------------------
+    def _dump(self, key, got):
+        if _DUMP:
+            with open('%s.%d' % (_DUMP, os.getpid()), 'a') as fp:
+                fp.write('%s\t%s\n' % (key, got))
+
     def ok(self, key, got, nontrivial=True):
+        self._dump(key, got)
         self.evaluations += 1
         if nontrivial:
             self.nontrivial += 1
@@ -72,6 +81,7 @@ class Ctx:
 
     def fail(self, key, tags, inputs, want, got, nontrivial=True, note=None):
         """An executed case whose observation contradicts the oracle."""
+        self._dump(key, got)
         self.evaluations += 1
         if nontrivial:
             self.nontrivial += 1
